@@ -31,7 +31,8 @@ KNum(f, x, d) ==
       [] f = "Mitchell" -> (IF x < d THEN Poly3(x, d, 21, -36, 0, 16)
                              ELSE IF x < 2 * d THEN Poly3(x, d, -7, 36, -60, 32) ELSE SZero)
 \* is (x/d) exactly on a discontinuity of the kernel?
-KTie(f, x, d) == f = "Box" /\ 2 * x = d
+\* (Box edge; the Gaussian is cut off at 3 on a half-open interval, so the two ends differ)
+KTie(f, x, d) == (f = "Box" /\ 2 * x = d) \/ (f = "Gaussian" /\ x = 3 * d)
 
 \* tabulated kernels: value at j/64 as a signed Wide scaled by 2^60 (midpoint of the certified enclosure,
 \* whose width is below 2^-40 of the kernel's maximum)
